@@ -118,20 +118,22 @@ def make_edit(plan, facts, stats):
             for ri in obj.rowInfos:
                 if not ri.cell_offsets:
                     continue
-                offs = array("h")
+                offs = array("H")   # unsigned: 0xFFFF alone marks a missing cell
                 offs.frombytes(ri.cell_offsets)
                 want_wide = {"wide": True, "narrow": False, "flip": not ri.has_wide_offsets, "mixed": rnd.random() < 0.5}[plan["offsets"]]
                 if want_wide == ri.has_wide_offsets:
                     continue
-                if ri.has_wide_offsets:  # wide -> narrow: byte offsets must fit int16
-                    new = [o * 4 if o >= 0 else o for o in offs]
-                    if any(o > 32767 for o in new):
+                if ri.has_wide_offsets:  # wide -> narrow: byte offsets must fit 16 bits below the marker
+                    new = [o * 4 if o != 0xFFFF else o for o in offs]
+                    if any(o != 0xFFFF and o > 0xFFFE for o in new):
                         continue
+                    if any(o != 0xFFFF and o > 0x7FFF for o in new):
+                        stats["rows_with_offsets_above_32k"] = stats.get("rows_with_offsets_above_32k", 0) + 1
                 else:  # narrow -> wide: offsets must be multiples of four
-                    if any(o >= 0 and o % 4 for o in offs):
+                    if any(o != 0xFFFF and o % 4 for o in offs):
                         continue
-                    new = [o // 4 if o >= 0 else o for o in offs]
-                ri.cell_offsets = array("h", new).tobytes()
+                    new = [o // 4 if o != 0xFFFF else o for o in offs]
+                ri.cell_offsets = array("H", new).tobytes()
                 ri.has_wide_offsets = want_wide
                 stats["rows_reencoded"] = stats.get("rows_reencoded", 0) + 1
                 ch = True
